@@ -892,6 +892,61 @@ def c07_6(ck, prog):
         raise AnalysisBroken('only %d driver handlers analysed' % n)
 
 
+def c07_9(ck, prog, rid='C07.9'):
+    """sender='name' / destination='name' in a match rule stand for the connection that owns the name now."""
+    r = ck.rule(rid, 'a well-known name in a rule\'s sender= / destination= key matches a connection only when that '
+                'connection is the name\'s primary owner: connection_is_primary_owner answers non-zero only with '
+                '`bus_service_get_primary_owners_connection (service) == connection`, for the service looked up under '
+                'the name it was given', 'DEC',
+                breaks='a connection merely waiting in the name\'s queue counts as the name: subscribers (and monitors '
+                'filtering on the name) receive traffic of connections that do not own it', floor=2)
+    S = 'bus/signals.c'
+    fn = prog.fn('connection_is_primary_owner', S)
+    conn = fn.params[0]['id']
+    name = fn.params[1]['id']
+    nret = [0]
+
+    def strip(e):
+        while isinstance(e, dict) and e.get('k') in ('paren', 'cast'):
+            e = e['e']
+        return e
+
+    def on_exit(user, ctx, ret, ev):
+        if ret is None:
+            return
+        nret[0] += 1
+        if ctx.const_of(ret) == 0:
+            return
+        e = strip(ret)
+        ok = False
+        if isinstance(e, dict) and e.get('k') == 'bin' and e['op'] == '==':
+            for a, b in ((strip(e['l']), strip(e['r'])), (strip(e['r']), strip(e['l']))):
+                if is_call(a, 'bus_service_get_primary_owners_connection') and is_ref(b) and b.get('id') == conn:
+                    sv = strip(a['args'][0]) if a['args'] else None
+                    o = ctx.origin_call(sv) if sv is not None else None
+                    ok = o is not None and ctx.ex.call_names.get(o[0]) == 'bus_registry_lookup'
+        if not ok:
+            ctx.report('connection_is_primary_owner can answer %s, which is not "the primary owner of the looked-up '
+                       'service is this connection"' % estr(ret), ev['line'], key=('answer', ev['line']))
+    locs = {lhs['name'] for b, i, ev in fn.events() for lhs, how, rhs in written_lvalues(ev)
+            if is_ref(lhs) and rhs is not None and is_call(rhs, 'bus_registry_lookup')}
+    ex = Explorer(fn, on_exit=on_exit, track=locs or None, calls={'bus_registry_lookup'}, cap=100000).run()
+    if nret[0] < 2:
+        raise AnalysisBroken('connection_is_primary_owner: returns not found')
+    if ex.reports:
+        r.from_reports(ex.reports, keyfn=lambda k, rep: 'connection_is_primary_owner:%s' % k[0])
+    else:
+        r.ok('connection_is_primary_owner:answer')
+    # the name that is looked up is the one the caller gave
+    lk = [c for b, i, c in fn.calls('bus_registry_lookup')]
+    inits = [c for b, i, c in fn.calls('_dbus_string_init_const')]
+    okn = len(lk) == 1 and inits and all(len(c['args']) > 1 and is_ref(strip(c['args'][1])) and
+                                         strip(c['args'][1]).get('id') == name for c in inits)
+    (r.ok('connection_is_primary_owner:looks-up-given-name') if okn else
+     r.violation('connection_is_primary_owner:looks-up-given-name', fn.name, S, fn.line,
+                 'the service is not looked up under the name the rule gave'))
+
+
 def run(ck):
     ck.explanation = (
         'Static rules over bus/signals.c, bus/driver.c, bus/dispatch.c, bus/connection.c: a table of the nine '
@@ -910,5 +965,6 @@ def run(ck):
         c07_4(ck, prog)
         c07_5(ck, prog)
         c07_6(ck, prog)
+        c07_9(ck, prog)
         from rules.C06 import c06_12
         c06_12(ck, prog, 'C07.8')
